@@ -223,3 +223,17 @@ SPECS['C18'] = {
     'thorough': [J('c18', 'fast', srcs=TLSSRC), J('c18', 'asan', srcs=TLSSRC, deadline=900)],
     'budget': {'quick': 170, 'thorough': 1500},
 }
+
+WRAPS = ['-Wl,--wrap=tls_prf', '-Wl,--wrap=hkdf_extract', '-Wl,--wrap=hkdf_expand', '-lcrypto', '-lpthread', '-ldl', '-lm']
+SPECS['C19'] = {
+    'level': 'fault_enumeration',
+    'technique': 'exhaustive enumeration of handshake executions (honest, every credential defect, per-record tampering, every entropy-draw failure on both roles) and a list of secret-handling API sequences incl. their failure modes; fd 1 and fd 2 captured per execution and searched for every secret of that execution',
+    'claim': 'In the default build, for 6 handshake configurations x {honest, 6 credential defects per role, bit flip / drop / duplicate of each of the first 8 records per direction, failure of each of the first 72 entropy draws per role} and for the SM2 / PKCS#8 / CMS / SM9 secret-handling sequences (success, tampered input, wrong key, wrong password, entropy failure), no window of 8 bytes of any private key, password, plaintext, pre-master / master secret, key block, TLS 1.3 secret, traffic key or IV appears on standard output or standard error, raw or as hex.',
+    'trusted': 'secrets of the handshakes are captured at derivation by link-time wrapping of tls_prf / hkdf_extract / hkdf_expand; only fd 1 and fd 2 are observed (the library writes diagnostics nowhere else)',
+    'rule': 'per execution: secrets = private scalars, application plaintext, PRF/HKDF inputs and outputs (Finished verify_data excluded), passwords; search = raw 8-byte windows and 16-hex-digit windows over the separator-stripped, case-folded capture. distinct = (configuration, variant).',
+    'bound': {'quick': 'whole menu', 'thorough': 'whole menu'},
+    'assumptions': ['explicit print / export calls are not invoked', 'secrets shorter than 8 bytes are not searched'],
+    'quick': [J('c19', 'fast', srcs=TLSSRC, libs=WRAPS)],
+    'thorough': [J('c19', 'fast', srcs=TLSSRC, libs=WRAPS)],
+    'budget': {'quick': 170, 'thorough': 600},
+}
